@@ -6,6 +6,7 @@ import (
 	"time"
 
 	"github.com/KevoDB/kevo/pkg/config"
+	"github.com/KevoDB/kevo/pkg/verifhook"
 )
 
 // CompactionCoordinatorOptions holds configuration options for the coordinator
@@ -211,6 +212,8 @@ func (c *DefaultCompactionCoordinator) compactionWorker() {
 
 // runCompactionCycle performs a single compaction cycle
 func (c *DefaultCompactionCoordinator) runCompactionCycle() error {
+	verifhook.Point("compact.cycle.begin")
+
 	// Reload SSTables to get fresh information
 	if err := c.strategy.LoadSSTables(); err != nil {
 		return fmt.Errorf("failed to load SSTables: %w", err)
